@@ -57,6 +57,7 @@ fn is_rect(fragments: &[&Fragment]) -> bool {
             let line_b2 = fragments[b2].as_line().expect("expecting a line");
             line_a1.is_touching_aabb_perpendicular(line_b1)
                 && line_a2.is_touching_aabb_perpendicular(line_b2)
+                && is_closed_outline(fragments)
         } else {
             false
         }
@@ -70,6 +71,27 @@ fn is_rect(fragments: &[&Fragment]) -> bool {
 ///  - 2 parallel pair
 ///  - 4 aabb right angle arc (top_left, top_right, bottom_left, bottom_right)
 ///  - each of the right angle touches 2 lines that are aabb_perpendicular
+/// The four lines close a rectangle only if every endpoint is a corner of their common
+/// bounding box; lines that merely touch (a ladder, sides overhanging an edge) are not a rect.
+fn is_closed_outline(fragments: &[&Fragment]) -> bool {
+    let all_points: Vec<_> = fragments
+        .iter()
+        .flat_map(|frag| {
+            let (p1, p2) = frag.bounds();
+            [p1, p2]
+        })
+        .collect();
+    let min = all_points.iter().min();
+    let max = all_points.iter().max();
+    if let (Some(min), Some(max)) = (min, max) {
+        all_points.iter().all(|p| {
+            (p.x == min.x || p.x == max.x) && (p.y == min.y || p.y == max.y)
+        })
+    } else {
+        false
+    }
+}
+
 pub fn endorse_rounded_rect(fragments: &[&Fragment]) -> Option<Rect> {
     if let (true, arc_radius) = is_rounded_rect(fragments) {
         let is_any_broken =
